@@ -8,7 +8,7 @@ dst='/verif/known/%s.json'%fid
 if os.path.abspath(src)!=dst: shutil.copy(src,dst)
 p='/verif/known_findings.json'
 d=json.load(open(p))
-d['findings']=[f for f in d['findings'] if f['id']!=fid]
+assert not any(f["id"]==fid for f in d["findings"]), "id exists: "+fid
 d['findings'].append({"id":fid,"property":prop,"status":"open","what":what,"replay":"known/%s.json"%fid,"tags":[] if tags=='-' else tags.split(',')})
 json.dump(d,open(p,'w'),indent=1)
 print('added',fid,'from',src)
